@@ -858,6 +858,33 @@ func c06Run(c *core.Ctx) {
 				}
 			}
 		}
+		// many columns (70, 130): every column takes its value once, from the first line that matches it
+		for _, ncols := range []int{70, 130} {
+			var cols, outs []string
+			var want []*string
+			row1 := strings.Repeat("abcdefghij", 14)[:ncols+1]
+			row2 := strings.Repeat("ZYXWVUTSRQ", 14)[:ncols+1]
+			for i := 1; i <= ncols; i++ {
+				sel := ""
+				if format == "fixedlength2" {
+					sel = `,"line_index":1`
+					if i%7 == 0 {
+						sel = `,"line_pattern":"^."` // matches both lines: the first one counts
+					}
+				} else if i%7 == 0 {
+					sel = `,"line_pattern":"^."`
+				}
+				cols = append(cols, fmt.Sprintf(`{"name":"k%d","start_pos":%d,"length":1%s}`, i, i, sel))
+				outs = append(outs, fmt.Sprintf(`"c%d":{"xpath":"k%d","no_trim":true,"keep_empty_or_null":true}`, i, i))
+				want = append(want, sp(string(row1[i-1])))
+			}
+			env := fmt.Sprintf(`{"by_rows":2,"columns":[%s]}`, strings.Join(cols, ","))
+			if format == "fixedlength2" {
+				env = fmt.Sprintf(`{"rows":2,"columns":[%s]}`, strings.Join(cols, ","))
+			}
+			st := `{` + hdr(format) + `,"file_declaration":{"envelopes":[` + env + `]},"transform_declarations":{"FINAL_OUTPUT":{"object":{` + strings.Join(outs, ",") + `}}}}`
+			emit(c06Case{Family: fmt.Sprintf("%s|%d columns on a 2-row envelope", format, ncols), Schema: st, Input: []byte(row1 + "\n" + row2 + "\n" + row1 + "\n" + row2 + "\n"), Want: [][]*string{want, want}}, nil, format+"-many-columns")
+		}
 		// two columns on DIFFERENT rows of a multi-row envelope whose rows have multi-byte runes at different
 		// places: every ordered pair of rows x start 1/3/5 x length 2/4 for both columns (a position counted in
 		// one row means nothing in another)
